@@ -21,7 +21,9 @@ open RsslVerif.Gen.UsageTables RsslVerif.Model.Usage RsslVerif.Spec.Usage RsslVe
 /-- the loop, the local pass and the list building have the syntactic shape the model mirrors -/
 theorem tables_as_modelled :
     recurseShape = ⟨true, true, true, true, true⟩ ∧
-    functionBodyGathered = true ∧ everyFunctionHasAnEntry = true ∧ cbuffersHaveEmptyUsage = true ∧
+    functionBodyGathered = true ∧ defaultArgumentsGathered = true ∧ globalInitialisersGathered = true ∧
+    everyFunctionHasAnEntry = true ∧ cbuffersHaveEmptyUsage = true ∧
+    callSitesFillDefaults = true ∧ noDefaultsWithImplicitParams = true ∧ staticInitialisersGeneratedLast = true ∧
     symbolInserts = [("Global", "GlobalVariable"), ("ConstantVariable", "ConstantBuffer"), ("Call", "Function")] ∧
     constantModeIffGlobalConstant = true ∧ intrinsicGlobalsHaveNoMode = true ∧
     implicitVariants = ["ThreadIndexInSimdgroup", "ThreadsPerSimdgroup", "MeshOutput", "PayloadOutput",
@@ -268,43 +270,84 @@ theorem implicit_base_eq_arg (p : Program) (i : Implicit) (hv : i.variant ≤ gl
       rw [hrow] at this
       simpa using this
 
-/-- **alignment (partial)**: when a call supplies every user parameter, the argument list and the callee's
-    parameter list have the same length, and at every implicit position the argument is the identifier the
-    parameter is declared under.  Partial: a call that omits defaulted arguments is *not* aligned in the
-    real code (`args_misaligned_with_defaults`). -/
-theorem args_align_partial (c : Ctx) (h : Nat) (fd : Func) (args : List SrcArg) (tt : Bool)
-    (hall : args.length = fd.params.length) (hvar : ∀ i ∈ c.req h, i.variant ≤ globalVariant) :
+theorem filterMap_length_of_all {α β : Type} (p : α → Bool) (g : α → β) : ∀ (l : List α),
+    (∀ x ∈ l, p x = true) → (l.filterMap fun x => if p x then some (g x) else none).length = l.length := by
+  intro l
+  induction l with
+  | nil => intro _; rfl
+  | cons a l ih =>
+    intro h
+    have ha : p a = true := h a (by simp)
+    simp only [List.filterMap_cons, ha, if_true, List.length_cons]
+    rw [ih (fun x hx => h x (by simp [hx]))]
+
+/-- a call that leaves out defaulted arguments gets exactly one explicit argument per omitted parameter when the
+    callee receives parameters for globals -/
+theorem filledDefaults_length (c : Ctx) (h : Nat) (fd : Func) (nargs : Nat)
+    (hfd : c.prog.funcs[h]? = some fd) (hreq : (c.req h).isEmpty = false)
+    (hdef : ∀ j, j < fd.params.length - nargs → fd.params[nargs + j]? = some .inDefault) :
+    (filledDefaults c h nargs).length = fd.params.length - nargs := by
+  have hf : callSitesFillDefaults = true := by decide
+  unfold filledDefaults
+  simp only [hfd, hf, hreq, Bool.not_false, Bool.and_self, if_true]
+  rw [filterMap_length_of_all (fun j => fd.params[nargs + j]? == some ParamMode.inDefault)
+        (fun j => defaultItemOf fd (nargs + j))]
+  · simp
+  · intro j hj
+    have := hdef j (by simpa using hj)
+    simp [this]
+
+/-- **alignment**: at every call the type checker accepts (omitted parameters all have defaults) of a function
+    that receives parameters for globals, the argument list is as long as the callee's parameter list (also
+    with the `#tt` tag of a trampoline target) and at every implicit position the argument is the identifier the
+    parameter is declared under — including calls that leave out defaulted arguments, whose defaults are passed
+    explicitly since fix 1d760f5. -/
+theorem args_align (c : Ctx) (h : Nat) (fd : Func) (args : List SrcArg) (tt : Bool)
+    (hfd : c.prog.funcs[h]? = some fd) (hle : args.length ≤ fd.params.length)
+    (hdef : ∀ j, j < fd.params.length - args.length → fd.params[args.length + j]? = some .inDefault)
+    (hreq : (c.req h).isEmpty = false) (hvar : ∀ i ∈ c.req h, i.variant ≤ globalVariant) :
     (callArgList c h args ++ (if tt then ["#tt"] else [])).length = (paramList c h fd tt).length ∧
     ∀ j, j < (c.req h).length →
-      ((callArgList c h args)[args.length + j]?) =
+      ((callArgList c h args)[fd.params.length + j]?) =
         ((c.req h)[j]?).map (implicitParamBase c.prog) ∧
       ((paramList c h fd false)[fd.params.length + j]?) =
         ((c.req h)[j]?).map (implicitParamName c.prog) := by
+  have hfl := filledDefaults_length c h fd args.length hfd hreq hdef
+  have hpre : (args.map (srcArgName c.prog) ++ (filledDefaults c h args.length).map (filledText c)).length
+      = fd.params.length := by
+    simp only [List.length_append, List.length_map, hfl]; omega
   constructor
-  · simp only [callArgList, paramList, List.length_append, List.length_map, userParamNames_length, hall]
+  · simp only [callArgList, paramList, List.length_append, List.length_map, userParamNames_length, hfl]
     cases tt <;> simp <;> omega
   · intro j hj
     constructor
     · unfold callArgList
-      rw [List.getElem?_append_right (by simp)]
-      simp only [List.length_map, Nat.add_sub_cancel_left, List.getElem?_map]
+      rw [List.getElem?_append_right (by rw [hpre]; omega)]
+      rw [hpre]
+      simp only [Nat.add_sub_cancel_left, List.getElem?_map]
       cases hget : (c.req h)[j]? with
       | none => rfl
       | some i =>
         have hi : i ∈ c.req h := List.mem_of_getElem? hget
         simp [implicit_base_eq_arg c.prog i (hvar i hi)]
     · unfold paramList
-      simp only [if_false, Bool.false_eq_true, List.append_nil]
+      simp only [Bool.false_eq_true, if_false, List.append_nil]
       rw [List.getElem?_append_right (by simp [userParamNames_length])]
       simp [userParamNames_length]
 
-/-- negation witness for the full alignment statement: `int f(int x = 1)` that needs a static, called as
-    `f()` — the real code emits `f(g_0)` against `f(int p_0 = 1, thread int& g_0)` (reproduced: corpus line 1) -/
-theorem args_misaligned_with_defaults :
+/-- a function that receives no globals keeps its defaults and its calls are emitted as written -/
+theorem args_unchanged_without_implicit (c : Ctx) (h : Nat) (args : List SrcArg) (hreq : c.req h = []) :
+    callArgList c h args = args.map (srcArgName c.prog) := by
+  unfold callArgList filledDefaults
+  cases c.prog.funcs[h]? <;> simp [hreq]
+
+/-- regression guard for the former negation witness: `int f(int x = 1)` that needs a static, called as `f()`,
+    is now emitted as `f(1, g_0)` against `f(int p_0, thread int& g_0)` (corpus line 1) -/
+theorem args_aligned_with_defaults :
     let p : Program := { globals := [{ name := "g_0", storage := .Static, isConst := false, staticSampler := false, isObject := false }],
                          funcs := [{ name := "f_0", params := [.inDefault], items := [] }] }
     let c : Ctx := { prog := p, required := [[⟨globalVariant, 0⟩]] }
-    callArgList c 0 [] = ["g_0"] ∧ paramList c 0 ⟨"f_0", [.inDefault], [], none⟩ false = ["p_0", "&g_0"] := by
+    callArgList c 0 [] = ["_", "g_0"] ∧ paramList c 0 ⟨"f_0", [.inDefault], [], none⟩ false = ["p_0", "&g_0"] := by
   decide
 
 /-! ## exactly the functions that need them -/
@@ -392,56 +435,54 @@ theorem threaded_exactly_partial (p : Program) {t₀ cl : Table} (hwf : WF t₀)
     refine ⟨.glob g, (close_is_reachability hwf hk hcl (.fn f) (.glob g)).2 hneeds, ?_⟩
     simp [implP, implicitsOfSym, hg, hm]
 
-/-! ## Where the full statement fails on the code as it is -/
+/-! ## What "needs" means for a program, and the former counterexamples as regression guards -/
 
-/-- witness 1 (`int f_1(int p_0 = f_0())` with `f_0` reading a static): the caller chain needs `g_0` but no
-    function except `f_0` receives it (reproduced on the real code: corpus line 2) -/
+/-- every symbol an item mentions, wherever it sits -/
+def Item.allSyms : Item → List Sym
+  | .use _ g => [Sym.glob g]
+  | .call _ f args => Sym.fn f :: args.filterMap fun (a : SrcArg) => a.map Sym.glob
+
+/-- every mention of a symbol: in a function's body or default arguments, or in a global's initialiser.
+    This is the property's own "needs" relation (the reading agreed after the fix batch: default arguments and
+    initialisers count). -/
+def allMentions (p : Program) (a b : Sym) : Prop :=
+  match a with
+  | .fn i => ∃ fd, p.funcs[i]? = some fd ∧ ∃ it ∈ fd.items, b ∈ Item.allSyms it
+  | .glob i => ∃ gl, p.globals[i]? = some gl ∧ ∃ u ∈ gl.initUses, b = .glob u.2
+  | .cb _ => False
+
+/-- `int f_1(int p_0 = f_0())` with `f_0` reading a static, called by `f_2` (corpus line 2) -/
 def witnessDefaultArg : Program :=
   { globals := [{ name := "g_0", storage := .Static, isConst := false, staticSampler := false, isObject := false }],
     funcs := [{ name := "f_0", params := [], items := [.use (.body [S "Return" 0]) 0] },
               { name := "f_1", params := [.inDefault], items := [.call (.defaultArg []) 0 []] },
               { name := "f_2", params := [], items := [.call (.body [S "Expression" 0]) 1 []] }] }
 
-/-- every mention of a symbol in a function, wherever it sits (what "needs" means in the property) -/
-def allMentions (p : Program) (a b : Sym) : Prop :=
-  match a with
-  | .fn i => ∃ fd, p.funcs[i]? = some fd ∧ ∃ it ∈ fd.items, b ∈
-      (match it with
-       | .use _ g => [Sym.glob g]
-       | .call _ f args => Sym.fn f :: args.filterMap fun (a : SrcArg) => a.map Sym.glob)
-  | .glob i => ∃ gl, p.globals[i]? = some gl ∧ ∃ u ∈ gl.initUses, b = .glob u.2
-  | .cb _ => False
-
-theorem default_arguments_not_analysed :
-    defaultArgumentsGathered = false ∧
-    Needs (allMentions witnessDefaultArg) (.fn 2) (.glob 0) ∧
+/-- since fix 1d760f5 default arguments are analysed: `f_1` and its caller receive `g_0`, and the call passes
+    the default explicitly -/
+theorem default_arguments_analysed :
+    defaultArgumentsGathered = true ∧
     ∃ cl, (closeProgram witnessDefaultArg (keysOf (calculateLocal witnessDefaultArg))).toOption = some cl ∧
-      (requiredOf witnessDefaultArg cl 2).toOption = some [] ∧ (requiredOf witnessDefaultArg cl 1).toOption = some [] := by
-  refine ⟨by decide, ?_, ?_⟩
-  · refine ⟨.fn 0, Reach.tail (b := Sym.fn 1) (c := Sym.fn 0) (Reach.tail (b := Sym.fn 2) (c := Sym.fn 1) (.refl _) ?_) ?_, ?_⟩
-    · exact ⟨_, rfl, _, List.mem_singleton.2 rfl, by simp⟩
-    · exact ⟨_, rfl, _, List.mem_singleton.2 rfl, by simp⟩
-    · exact ⟨_, rfl, _, List.mem_singleton.2 rfl, by simp⟩
-  · exact ⟨[(.fn 0, [.glob 0]), (.fn 1, []), (.fn 2, [.fn 1]), (.glob 0, [])], by decide, by decide, by decide⟩
+      (requiredOf witnessDefaultArg cl 2).toOption = some [⟨globalVariant, 0⟩] ∧
+      (requiredOf witnessDefaultArg cl 1).toOption = some [⟨globalVariant, 0⟩] ∧
+      callTexts ⟨witnessDefaultArg, [[⟨globalVariant, 0⟩], [⟨globalVariant, 0⟩], [⟨globalVariant, 0⟩]]⟩ 1 [] =
+        ["f_1(g_0,g_0)", "f_0(g_0)"] := by
+  refine ⟨by decide, [(.fn 0, [.glob 0]), (.fn 1, [.fn 0, .glob 0]), (.fn 2, [.fn 1, .fn 0, .glob 0]), (.glob 0, [])],
+    by decide, by decide, by decide, by decide⟩
 
-/-- witness 2 (`static int g_1 = g_0 + 1;`): a function that reads `g_1` makes the entry point declare
-    `int g_1 = g_0 + 1;` but `g_0` is not required anywhere (reproduced: corpus line 3) -/
+/-- `static int g_1 = 0 + g_0;` read by the entry point (corpus line 3) -/
 def witnessGlobalInit : Program :=
   { globals := [{ name := "g_0", storage := .Static, isConst := false, staticSampler := false, isObject := false },
                 { name := "g_1", storage := .Static, isConst := false, staticSampler := false, isObject := false,
                   initUses := [([], 0)] }],
     funcs := [{ name := "cs_main", params := [.in_], items := [.use (.body [S "Expression" 0]) 1] }] }
 
-theorem global_initialisers_not_analysed :
-    globalInitialisersGathered = false ∧
-    Needs (allMentions witnessGlobalInit) (.fn 0) (.glob 0) ∧
+/-- since fix 2c8592f initialisers are analysed: the entry point requires `g_0` as well, so the kernel declares it -/
+theorem global_initialisers_analysed :
+    globalInitialisersGathered = true ∧
     ∃ cl, (closeProgram witnessGlobalInit (keysOf (calculateLocal witnessGlobalInit))).toOption = some cl ∧
-      (requiredOf witnessGlobalInit cl 0).toOption = some [⟨globalVariant, 1⟩] := by
-  refine ⟨by decide, ?_, ?_⟩
-  · refine ⟨.glob 1, Reach.tail (b := Sym.fn 0) (c := Sym.glob 1) (.refl _) ?_, ?_⟩
-    · exact ⟨_, rfl, _, List.mem_singleton.2 rfl, by simp⟩
-    · exact ⟨_, rfl, _, List.mem_singleton.2 rfl, rfl⟩
-  · exact ⟨[(.fn 0, [.glob 1]), (.glob 0, []), (.glob 1, [])], by decide, by decide⟩
+      (requiredOf witnessGlobalInit cl 0).toOption = some [⟨globalVariant, 0⟩, ⟨globalVariant, 1⟩] := by
+  refine ⟨by decide, [(.fn 0, [.glob 1, .glob 0]), (.glob 0, []), (.glob 1, [.glob 0])], by decide, by decide⟩
 
 /-! ## Program level -/
 
@@ -511,6 +552,159 @@ theorem calculateLocal_wf (p : Program) (hp : IndexClosed p) : WF (calculateLoca
       rw [this]
       exact (hentry k s (mem_of_lookup hl)).1
 
+/-! ### the local table records exactly the mentions (when every place is visited) -/
+
+theorem lookup_map_fn (f : Nat → SymSet) (i : Nat) : ∀ (l : List Nat),
+    (l.map fun j => (Sym.fn j, f j)).lookup (Sym.fn i) = if i ∈ l then some (f i) else none := by
+  intro l
+  induction l with
+  | nil => rfl
+  | cons a l ih =>
+    simp only [List.map_cons, List.lookup_cons, List.mem_cons]
+    by_cases h : i = a
+    · subst h; simp
+    · have : (Sym.fn i == Sym.fn a) = false := by simpa using h
+      simp [this, ih, h]
+
+theorem lookup_map_glob (f : Nat → SymSet) (i : Nat) : ∀ (l : List Nat),
+    (l.map fun j => (Sym.glob j, f j)).lookup (Sym.glob i) = if i ∈ l then some (f i) else none := by
+  intro l
+  induction l with
+  | nil => rfl
+  | cons a l ih =>
+    simp only [List.map_cons, List.lookup_cons, List.mem_cons]
+    by_cases h : i = a
+    · subst h; simp
+    · have : (Sym.glob i == Sym.glob a) = false := by simpa using h
+      simp [this, ih, h]
+
+theorem lookup_map_fn_glob (f : Nat → SymSet) (i : Nat) : ∀ (l : List Nat),
+    (l.map fun j => (Sym.fn j, f j)).lookup (Sym.glob i) = none := by
+  intro l
+  induction l with
+  | nil => rfl
+  | cons a l ih =>
+    have : (Sym.glob i == Sym.fn a) = false := by simp
+    simp only [List.map_cons, List.lookup_cons, this]
+    exact ih
+
+theorem val_calculateLocal_fn (p : Program) {i : Nat} (hi : i < p.funcs.length) :
+    val (calculateLocal p) (.fn i) = localOfFunc p.globals (p.funcs.getD i ⟨"", [], [], none⟩) := by
+  unfold val calculateLocal
+  rw [List.lookup_append, List.lookup_append, lookup_map_fn]
+  simp [hi]
+
+theorem val_calculateLocal_glob (p : Program) {i : Nat} (hi : i < p.globals.length) :
+    val (calculateLocal p) (.glob i) =
+      if globalInitialisersGathered then
+        extend [] (((p.globals.getD i ⟨"", .Static, false, false, false, false, [], []⟩).initUses.filter
+          fun u => u.1.all Slot.descended && globalSeen p.globals u.2).map fun u => Sym.glob u.2)
+      else [] := by
+  unfold val calculateLocal
+  rw [List.lookup_append, List.lookup_append, lookup_map_fn_glob, lookup_map_glob]
+  simp [hi]
+
+/-- every mention sits at a place the current gather_usage_* visits (for the generator's positions this is
+    `all_positions_descended`) -/
+structure AllSeen (p : Program) : Prop where
+  items : ∀ fd ∈ p.funcs, ∀ it ∈ fd.items, it.place.seen = true
+  reads : ∀ gl ∈ p.globals, gl.readPath.all Slot.descended = true
+  inits : ∀ gl ∈ p.globals, ∀ u ∈ gl.initUses, u.1.all Slot.descended = true
+
+theorem globalSeen_of_allSeen {p : Program} (hs : AllSeen p) (g : Nat) : globalSeen p.globals g = true := by
+  have hr : recordsGlobals = true := by decide
+  unfold globalSeen
+  rw [hr]
+  cases hg : p.globals[g]? with
+  | none => rfl
+  | some gl => simpa using hs.reads gl (List.mem_of_getElem? hg)
+
+theorem seenSyms_eq_allSyms {p : Program} (hs : AllSeen p) {fd : Func} (hfd : fd ∈ p.funcs) {it : Item}
+    (hit : it ∈ fd.items) : Item.seenSyms p.globals it = Item.allSyms it := by
+  have hc : recordsCalls = true := by decide
+  have ha : callArgSlot.descended = true := by decide
+  have hp := hs.items fd hfd it hit
+  cases it with
+  | use pl g =>
+    simp only [Item.place] at hp
+    simp [Item.seenSyms, Item.allSyms, hp, globalSeen_of_allSeen hs]
+  | call pl f args =>
+    simp only [Item.place] at hp
+    simp only [Item.seenSyms, Item.allSyms, hp, hc, ha, if_true, List.singleton_append, List.cons.injEq, true_and]
+    congr 1
+    funext a
+    cases a with
+    | none => rfl
+    | some g => simp [globalSeen_of_allSeen hs]
+
+/-- the local table of `calculate_local` is the mentions relation -/
+theorem mentions_calculateLocal (p : Program) (hs : AllSeen p) (a b : Sym) :
+    Mentions (calculateLocal p) a b ↔ allMentions p a b := by
+  have hgi : globalInitialisersGathered = true := by decide
+  unfold Mentions
+  cases a with
+  | fn i =>
+    by_cases hi : i < p.funcs.length
+    · have hget : p.funcs[i]? = some (p.funcs.getD i ⟨"", [], [], none⟩) := by
+        rw [List.getD_eq_getElem?_getD, List.getElem?_eq_getElem hi]; rfl
+      have hfd : p.funcs.getD i ⟨"", [], [], none⟩ ∈ p.funcs := List.mem_of_getElem? hget
+      rw [val_calculateLocal_fn p hi]
+      unfold localOfFunc
+      simp only [mem_extend, List.not_mem_nil, false_or, List.mem_flatMap, allMentions]
+      constructor
+      · rintro ⟨it, hit, hb⟩
+        exact ⟨_, hget, it, hit, by rwa [seenSyms_eq_allSyms hs hfd hit] at hb⟩
+      · rintro ⟨fd, hfd', it, hit, hb⟩
+        have : fd = p.funcs.getD i ⟨"", [], [], none⟩ := by rw [hget] at hfd'; exact (Option.some.inj hfd').symm
+        subst this
+        exact ⟨it, hit, by rwa [seenSyms_eq_allSyms hs hfd hit]⟩
+    · have hk : Sym.fn i ∉ keysOf (calculateLocal p) := by
+        rw [keysOf_calculateLocal]; simp; omega
+      rw [val_of_not_mem hk]
+      simp only [List.not_mem_nil, allMentions, false_iff]
+      rintro ⟨fd, hfd, _⟩
+      have := List.getElem?_eq_none (Nat.le_of_not_lt hi) ▸ hfd
+      exact absurd this (by simp)
+  | glob i =>
+    by_cases hi : i < p.globals.length
+    · have hget : p.globals[i]? = some (p.globals.getD i ⟨"", .Static, false, false, false, false, [], []⟩) := by
+        rw [List.getD_eq_getElem?_getD, List.getElem?_eq_getElem hi]; rfl
+      have hgl := List.mem_of_getElem? hget
+      rw [val_calculateLocal_glob p hi, hgi]
+      simp only [if_true, mem_extend, List.not_mem_nil, false_or, List.mem_map, List.mem_filter, allMentions]
+      constructor
+      · rintro ⟨u, ⟨hu, _⟩, rfl⟩
+        exact ⟨_, hget, u, hu, rfl⟩
+      · rintro ⟨gl, hgl', u, hu, rfl⟩
+        have : gl = p.globals.getD i ⟨"", .Static, false, false, false, false, [], []⟩ := by
+          rw [hget] at hgl'; exact (Option.some.inj hgl').symm
+        subst this
+        exact ⟨u, ⟨hu, by simp [hs.inits _ hgl u hu, globalSeen_of_allSeen hs]⟩, rfl⟩
+    · have hk : Sym.glob i ∉ keysOf (calculateLocal p) := by
+        rw [keysOf_calculateLocal]; simp; omega
+      rw [val_of_not_mem hk]
+      simp only [List.not_mem_nil, allMentions, false_iff]
+      rintro ⟨gl, hgl, _⟩
+      have := List.getElem?_eq_none (Nat.le_of_not_lt hi) ▸ hgl
+      exact absurd this (by simp)
+  | cb i =>
+    have hk : Sym.cb i ∉ keysOf (calculateLocal p) := by
+      rw [keysOf_calculateLocal]; simp
+    rw [val_of_not_mem hk]
+    simp [allMentions]
+
+theorem Reach.congr {α : Type} {R S : α → α → Prop} (h : ∀ a b, R a b ↔ S a b) {a b : α} (hr : Reach R a b) :
+    Reach S a b := by
+  induction hr with
+  | refl => exact .refl _
+  | tail _ r ih => exact .tail ih ((h _ _).1 r)
+
+theorem Needs.congr {α : Type} {R S : α → α → Prop} (h : ∀ a b, R a b ↔ S a b) (a b : α) :
+    Needs R a b ↔ Needs S a b := by
+  constructor
+  · rintro ⟨x, hx, hr⟩; exact ⟨x, Reach.congr h hx, (h _ _).1 hr⟩
+  · rintro ⟨x, hx, hr⟩; exact ⟨x, Reach.congr (fun a b => (h a b).symm) hx, (h _ _).2 hr⟩
+
 /-- for every index-closed program the analysis returns a closure table (no panic, no fuel exhaustion) -/
 theorem closeProgram_ok (p : Program) (hp : IndexClosed p) :
     ∃ cl, closeProgram p (keysOf (calculateLocal p)) = .ok cl := by
@@ -532,6 +726,17 @@ theorem threaded_exactly_program_partial (p : Program) (hp : IndexClosed p) {cl 
       injection hcl with hcl
       rw [ht, hcl]
   exact threaded_exactly_partial p (calculateLocal_wf p hp) (fun _ => Iff.rfl) hrec f g
+
+/-- **threaded exactly**: for every index-closed program whose mentions all sit at visited places, a function
+    has an implicit parameter for global `g` iff `g` is a threaded-mode global and the function needs it — where
+    "needs" is reachability through *all* mentions: bodies, default arguments and global initialisers.  (Before
+    the fixes 2c8592f / 1d760f5 only the `_partial` form over the recorded mentions held.) -/
+theorem threaded_exactly (p : Program) (hp : IndexClosed p) (hs : AllSeen p) {cl : Table}
+    (hcl : closeProgram p (keysOf (calculateLocal p)) = .ok cl) (f g : Nat) :
+    (⟨globalVariant, g⟩ : Implicit) ∈ requiredP p cl f ↔
+      (∃ gl, p.globals[g]? = some gl ∧ modeOf gl = some .parameter) ∧
+      Needs (allMentions p) (.fn f) (.glob g) := by
+  rw [threaded_exactly_program_partial p hp hcl f g, Needs.congr (mentions_calculateLocal p hs)]
 
 /-! ## Non-vacuity -/
 
